@@ -21,7 +21,7 @@ namespace BitSerializer::Detail
 			auto hint = cont.begin();
 			while (!scope.IsEnd())
 			{
-				TValue value;
+				TValue value{};
 				Serialize(scope, value);
 				hint = cont.insert(hint, std::move(value));
 			}
